@@ -83,6 +83,10 @@ func dispatch(kind string, args []*Sexp) (out *Sexp) {
 	case "history":
 		return runHistory(args)
 	}
+	switch kind {
+	case "jsonstr", "jsonmarshal", "jsondoc":
+		return runJSON(kind, args)
+	}
 	return L(A("unknown-kind"), A(kind))
 }
 
